@@ -27,7 +27,10 @@ class CombinedHashByValue(EdgeFactory):
         (edge, inputs, output), = self.prepare.build(name)
         assert isinstance(output, Default)
         inter = Intermediate()
-        yield TypedEdge(ComputableHashEdge(edge), inputs, inter)
+        # impure and other by-value edges are already hashed by value
+        if not isinstance(edge, ComputableHashBase):
+            edge = ComputableHashEdge(edge)
+        yield TypedEdge(edge, inputs, inter)
 
         (edge, inputs, output), = self.compute.build(name)
         inputs = list(inputs)
